@@ -39,6 +39,13 @@ Theorems that USE the contract (hypothesis `hc : SortContract alg`): `perm_invar
 or about the reference sort `isort`.  `sort_contract_satisfiable` discharges the contract for a
 verified insertion sort (`isortA`); nothing is claimed about Go's pdqsort beyond the contract.
 
+Round 4b (`Rare/Model/C13Axes.lean`): the commands' use of the sorters – two `BuildSorter` closures for the two
+axes of table/heatmap/spark, kept for the whole render loop (`table_axes_independent`,
+`render_loop_deterministic`, `table_renders_deterministic`, `reduce_render_loop`,
+`shared_sorter_counterexample`, `sorters_built_per_axis`), and `-n N` = sort first, cut afterwards
+(`top_n_deterministic`, `top_rows_precede_hidden`, `cut_before_sort_counterexample`, `top_n_matches_source`,
+`sort_wrappers_match_source`).
+
 Full statement wanted for `contextual` / `date`:
   for EVERY key set, every permutation sorts to the same sequence
     (`sort_result` without the hypothesis `modeUniform`).
@@ -1341,6 +1348,66 @@ theorem sort_wrappers_match_source :
       (0, "expr", "sorting.SortBy(rows, sorter, func(obj *TableRow) sorting.NameValuePair { return sorting.NameValuePair{ Name: obj.name, Value: obj.sum, } })"),
       (0, "return", "rows")] := by
   decide +kernel
+
+/-! ## defaults and `SortsByValue` (round 4b) -/
+
+/-- **What the user gets without a sort flag** (regenerated from the flag definitions of the commands): `histo`,
+`table` (both axes) and the rows of `spark` default to `value` – which `parseSort` makes DESCENDING (larger totals
+first) –, `bars`, `heatmap` (both axes) and the columns of `spark` to `helpers.DefaultSortFlag.Value` = `numeric`,
+ascending; `reduce` has no default (`ByContextual()` on the group keys).  Every default is a name the model
+resolves; `DefaultSortFlagWithDefault` / `SortsByValue` are the statements the model mirrors. -/
+theorem default_sorts_from_source :
+    Gen.C13.defaultSortValue = "numeric"
+    ∧ Gen.C13.sortDefaults = [
+        ("cmd/histo.go", "sort", "\"value\""),
+        ("cmd/bargraph.go", "sort", "helpers.DefaultSortFlag.Value"),
+        ("cmd/tabulate.go", "sort-rows", "\"value\""),
+        ("cmd/tabulate.go", "sort-cols", "\"value\""),
+        ("cmd/heatmap.go", "sort-rows", "helpers.DefaultSortFlag.Value"),
+        ("cmd/heatmap.go", "sort-cols", "helpers.DefaultSortFlag.Value"),
+        ("cmd/spark.go", "sort-rows", "\"value\""),
+        ("cmd/spark.go", "sort-cols", "\"numeric\""),
+        ("cmd/reduce.go", "sort", "<none>")]
+    ∧ parsed (parseSort asciiLower (asc "value")) = some (asc "value", true)
+    ∧ lookupMode asciiLower (asc "value") = some .value
+    ∧ parsed (parseSort asciiLower (asc Gen.C13.defaultSortValue)) = some (asc "numeric", false)
+    ∧ lookupMode asciiLower (asc Gen.C13.defaultSortValue) = some .numeric
+    ∧ sortsByValue asciiLower (asc "value") = true ∧ sortsByValue asciiLower (asc "numeric") = false
+    ∧ Gen.C13.sortsByValueSkel = [
+        (0, "assign", "name, _, err := parseSort(fullName)"),
+        (0, "return", "err == nil && name == \"value\"")]
+    ∧ Gen.C13.defaultSortFlagWithDefaultSkel = [
+        (0, "if", "_, err := lookupSorter(dflt); err != nil"),
+        (1, "expr", "panic(err)"),
+        (0, "assign", "flag := *DefaultSortFlag"),
+        (0, "assign", "flag.Value = dflt"),
+        (0, "return", "&flag")] := by
+  decide +kernel
+
+/-- `SortsByValue` on every name × modifier: true exactly for `value` with a valid (or no) modifier. -/
+theorem sorts_by_value_table :
+    (sortNames.all fun n => modifierExpect.all fun me =>
+      sortsByValue asciiLower (asc n ++ asc me.1) == (n == "value" && (me.2 true).isSome)) = true := by
+  decide +kernel
+
+/-- `SortsByValue(name)` implies that `BuildSorter(name)` succeeds with the `value` comparator (possibly reversed) –
+for every `strings.ToLower` that leaves the word `value` alone. -/
+theorem sorts_by_value_sound (o : Oracle) (sets : List SortSet) (h : o.lower (asc "value") = asc "value") (n : Key)
+    (hv : sortsByValue o.lower n = true) :
+    ∃ rev, parseSort o.lower n = .ok (asc "value", rev)
+      ∧ buildSorter o sets n = .ok (if rev then (modeSorter o sets .value).reversed else modeSorter o sets .value) := by
+  unfold sortsByValue at hv
+  split at hv
+  · rename_i name rev heq
+    have hn : name = asc "value" := by simpa using hv
+    subst hn
+    have hm : lookupMode o.lower (asc "value") = some .value := by
+      unfold lookupMode
+      rw [h]
+      decide +kernel
+    refine ⟨rev, heq, ?_⟩
+    simp only [buildSorter, heq, lookupSorter, hm]
+  · simp at hv
 
 /-! ## non-vacuity -/
 
